@@ -36,3 +36,20 @@ pub fn repair_tc(nodes_to_fix: &HashSet<EntityUID>, nodes: &mut HashMap<EntityUI
 impl<T> HashSet<T> {
     #[verifier::external_body] pub fn is_disjoint(&self, o: &HashSet<T>) -> (b: bool) ensures b == self.view().disjoint(o.view()) { unimplemented!() }
 }
+// ---- for Entities::entity (C13: a partial store answers a missing entity with a typed unknown) ----
+#[verifier::external_body] pub struct Name { _p: u8 }
+#[verifier::external_body] pub struct Expr { _p: u8 }
+pub struct Unknown { pub name: SmolStr, pub type_annotation: Option<Type> }
+impl Unknown {
+    /// Unknown::new_with_type (ast/expr.rs): the annotation is the given type
+    #[verifier::external_body] pub fn new_with_type(name: SmolStr, ty: Type) -> (r: Self) ensures r.name == name, r.type_annotation == Some(ty) { unimplemented!() }
+}
+impl Expr {
+    pub uninterp spec fn spec_unknown(&self) -> Option<Unknown>;
+    #[verifier::external_body] pub fn unknown(u: Unknown) -> (r: Self) ensures r.spec_unknown() == Some(u) { unimplemented!() }
+}
+impl Clone for EntityType { #[verifier::external_body] fn clone(&self) -> (r: Self) ensures r == *self { unimplemented!() } }
+impl EntityUID {
+    pub uninterp spec fn spec_to_smolstr(&self) -> SmolStr;
+    #[verifier::external_body] pub fn to_smolstr(&self) -> (r: SmolStr) ensures r == self.spec_to_smolstr() { unimplemented!() }
+}
